@@ -11,6 +11,7 @@ import z3
 from pyvc.engine import (SObj, SList, SSeq, SArr, AStr, PyRaise, EngineError, LoopSpec, NDArr)
 from pyvc.values import *      # noqa
 from pyvc.runner import Unit, Canary
+from pyvc.engine import PathEnd
 from pyvc.frames import CallGraph
 from pyvc.source import Repo
 from .schema import SCHEMA
@@ -422,7 +423,77 @@ U_POWER2 = Unit(P + '/Mininec.compute-power', ['Mininec.compute', 'Excitation.po
                 canaries=[Canary('power-summed-by-magnitude', 'Mininec.compute', _PowerOfMagnitudes,
                                  [P + '/Mininec.compute[two sources]/power-is-the-net'])])
 
-UNITS = [U_RHS, U_RHS_LIN, U_CUR, U_SOLVE, U_DBI, U_EXC, U_ASM, U_COMPUTE, U_POWER2, U_FRAME]
+
+# ---------------------------------------------------------------- compute_rhs executed for two sources (any implementation)
+def t_rhs_two(eng):
+    """the real compute_rhs for two sources with different symbolic voltages on two different pulses of a three-pulse model,
+    in either order of the source list (ascending or descending pulse number), pulse 0 grounded or not: the right-hand side
+    carries -j V_k / m (doubled on a grounded pulse) at the pulse named by source k, and 0 elsewhere.  The fold unit above proves
+    the loop as written; this one holds for any way of writing it (e.g. a vectorised assignment)."""
+    n = P + '/Mininec.compute_rhs[two sources]/'
+    m = SObj('Mininec', label='m')
+    mm = fresh_real('m')
+    eng.assume(r_cmp('>', mm, 0))
+    m.fields['m'] = mm
+    NP_ = 3
+    g0 = eng.choose(2) == 1
+    pulses = []
+    for k in range(NP_):
+        pk = SObj('Pulse', label='p%d' % k)
+        pk.fields['ground'] = NDArr([bool(g0 and k == 0), False])
+        pulses.append(pk)
+    pc = SObj('Pulse_Container', label='pulses')
+    m.fields['pulses'] = pc
+    eng.summaries['Pulse_Container.__len__'] = lambda e, a, k: NP_
+    eng.summaries['Pulse_Container.__getitem__'] = lambda e, a, k: pulses[a[1]] if isinstance(a[1], int) else (_ for _ in ()).throw(EngineError('symbolic pulse index'))
+    eng.summaries['Pulse_Container.__iter__'] = lambda e, a, k: SList([('conc', list(pulses))])
+    i1 = eng.choose(NP_)
+    i2 = eng.choose(NP_)
+    if i1 == i2:
+        raise PathEnd()
+    srcs = []
+    for k, ix in enumerate((i1, i2)):
+        sx = SObj('Excitation', label='src%d' % k)
+        sx.fields.update({'idx': ix, 'parent': m, 'voltage': fresh_cx('V%d' % k)})
+        srcs.append(sx)
+    m.fields['sources'] = SList([('conc', srcs)])
+    eng.call_qual('Mininec.compute_rhs', [m])
+    eng.cover('rhs-two-%d-%d-%d' % (i1, i2, g0))
+    rhs = m.fields.get('rhs')
+    ok = isinstance(rhs, NDArr) and rhs.shape == (NP_,)
+    eng.oblige(n + 'one-entry-per-pulse', ok)
+    if not ok:
+        return
+    for k in range(NP_):
+        want = CX(0, 0)
+        for sx in srcs:
+            if sx.fields['idx'] == k:
+                f2 = r_div(-2 if (g0 and k == 0) else -1, mm)
+                want = c_mul(CX(0, f2), sx.fields['voltage'])
+        eng.oblige(n + 'each-voltage-at-the-pulse-its-source-names-(doubled-on-a-grounded-pulse)-zero-elsewhere',
+                   c_eq(to_cx(rhs.data[k]), want))
+
+
+class _VoltagesByAscendingPulse(ast.NodeTransformer):
+    """the voltages are paired with the pulses in ascending pulse order instead of source by source"""
+
+    def visit_For(self, node):
+        if ast.unparse(node.iter).replace(' ', '') == 'self.sources':
+            node.iter = ast.parse('sorted (self.sources, key = lambda s: s.idx)').body[0].value
+            node.body = [ast.parse('volt = [s.voltage for s in self.sources][sorted (s.idx for s in self.sources).index (src.idx)]').body[0]] + node.body
+            for st in node.body:
+                for t in ast.walk(st):
+                    if isinstance(t, ast.Attribute) and t.attr == 'voltage' and ast.unparse(t.value) == 'src' and isinstance(t.ctx, ast.Load) \
+                            and st is not node.body[0]:
+                        t.value = ast.Name('volt', ast.Load())
+                        t.attr = 'real'
+        return node
+
+
+U_RHS2 = Unit(P + '/Mininec.compute_rhs-two-sources', ['Mininec.compute_rhs'], t_rhs_two, SCH,
+              notes='bounded(shape): two sources on a three-pulse model, every assignment of two different pulses in both orders, pulse 0 grounded or not')
+
+UNITS = [U_RHS, U_RHS2, U_RHS_LIN, U_CUR, U_SOLVE, U_DBI, U_EXC, U_ASM, U_COMPUTE, U_POWER2, U_FRAME]
 
 
 # linearity in the voltages holds for EVERY solve on an object only if nothing derived from a voltage is kept between the
